@@ -81,3 +81,55 @@ Theorem C08_anchor_series : forall (r : rule) (sd a : Z),
   forall c, matches_s (series_from r a) c = matches_s (series_of r) c.
 Proof. exact anchor_series. Qed.
 Print Assumptions C08_anchor_series.
+
+(* ---------- consequences of forward exactness (Proofs/RecurExact2.v) ---------- *)
+From CG Require Import Proofs.RecurExact Proofs.RecurExact2.
+
+(* window independence: the answer to a window is the restriction of the answer to any wider
+   window — no gaps, repeats or drift whichever window is asked, however far from the anchor *)
+Theorem C08_fetch_window_independent : forall r a b a' b' l l',
+  lists_ok r -> 0 < r_interval r -> rule_accepted r ->
+  zone_spread_ok (r_zone r) = true ->
+  a' <= a -> b <= b' ->
+  fetch_forward r a b = Ok l -> fetch_forward r a' b' = Ok l' ->
+  l = filter (fun i => (a <? fend i) && (fstart i <=? b)) l'.
+Proof. exact fetch_window_independent. Qed.
+Print Assumptions C08_fetch_window_independent.
+
+(* every finite window is answered: no exception once the anchor exists ... *)
+Theorem C08_forward_no_raise : forall r a b,
+  rule_accepted r ->
+  safe_anchor r (local_day (r_zone r) (a - lookback_buffer r)) <> None ->
+  fetch_forward r a b <> Raised.
+Proof. exact fetch_forward_no_raise. Qed.
+Print Assumptions C08_forward_no_raise.
+
+(* ... the anchor exists for every daily / weekly rule and for monthly / yearly rules anchored on
+   a day <= 28 (for days 29-31 the step-back loop of the repaired code is validated on every run) *)
+Theorem C08_safe_anchor_total : forall r sd,
+  0 < r_interval r ->
+  r_freq r = Daily \/ r_freq r = Weekly \/
+  (day_of (base_day r) <= 28 /\ r_interval r < year_of sd) ->
+  exists a0, safe_anchor r sd = Some a0.
+Proof. exact safe_anchor_total. Qed.
+Print Assumptions C08_safe_anchor_total.
+
+(* ... and the fuel of the model never runs out when an occurrence follows the window *)
+Theorem C08_forward_fuel_enough : forall r a b dstar,
+  lists_ok r -> 0 < r_interval r -> rule_accepted r ->
+  zone_spread_ok (r_zone r) = true -> 0 <= r_dur r -> a <= b ->
+  matches r dstar = true ->
+  local_day (r_zone r) b + 2 <= dstar <= local_day (r_zone r) b + SLACK_DAYS ->
+  zmem (fstart (occurrence r dstar)) (r_exdates r) = false ->
+  fetch_forward r a b <> OutOfFuel.
+Proof. exact fetch_forward_fuel_enough. Qed.
+Print Assumptions C08_forward_fuel_enough.
+
+Theorem C08_forward_exact : forall r a b l,
+  lists_ok r -> 0 < r_interval r -> rule_accepted r ->
+  zone_spread_ok (r_zone r) = true ->
+  fetch_forward r a b = Ok l -> l = spec_occurrences r a b.
+Proof. exact RecurExact2.C07_forward_exact. Qed.
+Print Assumptions C08_forward_exact.
+
+Example C08_window_independent_nonvacuous : _ := RecurExact2.fetch_window_independent_instance.
